@@ -599,6 +599,9 @@ def c08(tier):
         runs = []
         for p in plans:
             runs += config_runs(p)
+            # the same plan through execute_limited with a generous budget (the fault must still stop the run)
+            runs += config_runs(dict(p, mode="limited", budget=10 ** 6),
+                                [("inplace", 0), ("irint", 2), ("bcint", 2), ("jit", 2)])
         return runs
 
     executed = bf.execute(hv, cases, runs_for)
